@@ -37,7 +37,7 @@ def enc(v):
 
 def evaluate(e, db, betas):
     if not isinstance(e, Expression):
-        e = Numeric(e)
+        e = Numeric(float(e))
     vals = e.get_value_c(database=db, betas=betas, prepare_ids=True)
     return [enc(v) for v in vals]
 
@@ -62,7 +62,8 @@ def run_call(c, call, db, betas):
     res = {'alts': {}}
     if want_trees:
         res['trees'] = {}
-    cc = {'nests': call.get('nests', c.get('nests')), 'choice_set': call.get('choice_set', c.get('choice_set'))}
+    cc = {'nests': call.get('nests', c.get('nests')), 'choice_set': call.get('choice_set', c.get('choice_set')),
+          'names': call.get('names', c.get('names')), 'prev_pos': call.get('prev_pos', c.get('prev_pos'))}
     syntax = call.get('syntax', 'legacy')
     mu = B.mk_pv(call.get('mu', c.get('mu')))
 
